@@ -22,7 +22,8 @@ CONSTANTS
   Files,      \* set of file names
   D,          \* set of problem descriptors: [id, file, line, endcol, cat, msg, all]
   NameSeq,    \* sequence of build names, used in restricted-growth order
-  MaxRuns
+  MaxRuns,
+  Foreign     \* TRUE: a run may also report problems in files it did not check
 
 VARIABLES runs
 
@@ -30,9 +31,14 @@ vars == <<runs>>
 
 Bodies == { [checked |-> c, diags |-> ds] :
               c \in (SUBSET Files) \ {{}}, ds \in SUBSET D }
-\* a run only reports problems in files it checked
+\* Usually a run only reports problems in files it checked.  It need not: a //line directive moves a
+\* problem into a file the run never saw (a generated file pointing at its OS-specific source), and
+\* the input of -merge is arbitrary.  The property quantifies over arbitrary checked-file sets and
+\* problem sets, so the configurations with Foreign = TRUE drop the restriction: a run that reports a
+\* problem of a file it did not check says nothing about whether it "checked the file and stayed
+\* silent" - only runs that checked the file can veto an `all` problem.
 Realistic(rb) == \A d \in rb.diags : d.file \in rb.checked
-RBodies == { rb \in Bodies : Realistic(rb) }
+RBodies == IF Foreign THEN Bodies ELSE { rb \in Bodies : Realistic(rb) }
 
 UsedNames(rs) == { rs[i].name : i \in 1..Len(rs) }
 \* restricted growth: the next run may reuse a name or take the first unused one
